@@ -145,7 +145,8 @@ void use_one(Obj &o) {
                  o.p = l; break; }
   case O_HASH: { PHashTable *h = (PHashTable *)o.p; uint32_t r = gen(5);
                  if (r == 0) p_hash_table_insert(h, (ppointer)(intptr_t)(1 + gen(500)), nullptr); else if (r == 1) p_hash_table_remove(h, (ppointer)(intptr_t)(1 + gen(500)));
-                 else if (r == 2) p_list_free(p_hash_table_keys(h)); else if (r == 3) p_list_free(p_hash_table_values(h)); else p_list_free(p_hash_table_lookup_by_value(h, (ppointer)(intptr_t)1, nullptr)); break; }
+                 else if (r == 2) p_list_free(p_hash_table_keys(h)); else if (r == 3) p_list_free(p_hash_table_values(h)); else p_list_free(p_hash_table_lookup_by_value(h, (ppointer)(intptr_t)1, nullptr));
+                 break; }
   case O_TREE: {
     PTree *tr = (PTree *)o.p; uint32_t r = gen(6);
     if (r <= 2) {   // insert an owned heap pair
